@@ -1,5 +1,6 @@
 """C09 - rate-limiting operators never invent, duplicate or reorder items."""
 import timedcheck
+import tchain
 
 OPS = [("(debounce 5)", 5), ("(debounce 2)", 2), ("(throttle 5 leading)", 5), ("(throttle 5 tailing)", 5), ("(throttle 5 all)", 5),
        ("(throttle 2 all)", 2), ("(buffer_with_time 5)", 5), ("(buffer_with_count_and_time 2 5)", 5), ("(buffer_with_count_and_time 0 5)", 5),
@@ -16,6 +17,7 @@ def run(tier, seed, replay=None):
         "debounce(5|2|0), throttle_time(5|2|0) x {leading, tailing, all}, buffer_with_time(5), buffer_with_count_and_time(2|0|3, 5|2) over a Subject "
         "input, local and _threads forms: every label sequence of <= 4 labels over {next 1, next 2, complete, error, poll task 0/1/2, advance by "
         "w-1/w/w+1, unsubscribe, is_closed} and random sequences of 8-21 labels with gaps shorter than, equal to and longer than the window and both "
-        "orders of same-instant input events and timer firings; observation = deliveries with virtual time stamps",
+        "orders of same-instant input events and timer firings; observation = deliveries with virtual time stamps; and " + tchain.RULE2,
         ["sample(notifier) is covered by C04 (it takes a notifier, not a scheduler)"],
-        tier, seed, replay)
+        tier, seed, replay,
+        extra=lambda tier, rng: [c for c in tchain.two_cases(tier, rng) if "debounce" in c[1] or "buffer" in c[1]])
